@@ -47,7 +47,7 @@ GROUPS: dict[str, list[tuple[str, str]]] = {
                                                                "objective", "sense", "constraints")],
     "get_variables": [("core/expressions.py", "get_all_variables"), ("core/expressions.py", "_get_variables_iterative"),
                       ("core/expressions.py", "_estimate_tree_depth")]
-                     + [("core/expressions.py", f"{c}.get_variables") for c in ("Constant", "Variable", "BinaryOp", "UnaryOp")],
+,   # the get_variables methods of all classes are translated (py2lean_vars.py)
     # _gradient_iterative: rule templates (gen_tables) + control skeleton (py2lean_graditer) are translated
     "iterative": [("core/autodiff.py", "_estimate_tree_depth")],
     # increased_recursion_limit is translated (py2lean_post.gen_limit_shape -> Generated/HookShape, Props/HookTie)
